@@ -475,6 +475,55 @@ def real_pkgconfig_cflags(value):
         return r.stdout.decode('utf-8', 'surrogateescape').rstrip('\n')
 
 
+def real_pkgconfig_file(text, which):
+    """what `pkg-config --cflags|--libs x` prints for a whole .pc file; returns (dir, output)"""
+    if not _encodable(text) or '\r' in text:
+        return None, ('skip', '')
+    with Scratch() as sc:
+        sc.write('x.pc', text)
+        r = subprocess.run(['pkg-config', which, 'x'], capture_output=True, timeout=20,
+                           env={'PKG_CONFIG_PATH': sc.dir, 'PATH': '/usr/bin:/bin'})
+        if r.returncode != 0:
+            return sc.dir, ('error', r.stderr.decode(errors='replace')[:120])
+        return sc.dir, r.stdout.decode('utf-8', 'surrogateescape').rstrip('\n')
+
+
+def check_rpc_file(names, workers=16):
+    """whole-file reading: variables (definition-time expansion, ${pcfiledir}), -I / -L fragments"""
+    from .models import rpc
+    agree = declined = 0
+    bad = []
+
+    def texts(v):
+        yield ('srcdir=/src dir\nbuilddir=${pcfiledir}/..\n\nName: x\nDescription: d\nVersion: 1\n'
+               "Cflags: -I'${srcdir}/" + v + "' -DQ\nLibs: -L'${builddir}/" + v + "' -lfoo\n")
+        yield ('prefix=/usr/local\nincludedir=${prefix}/' + v + '\nlibdir=${prefix}/lib\n\nName: x\n'
+               'Description: d\nVersion: 1\nCflags: -I${includedir}/sub -DQ\nLibs: -L${libdir} -l' + v +
+               '\n')
+
+    def one(v):
+        out = []
+        for t in texts(v):
+            for which, name in (('--cflags', 'Cflags'), ('--libs', 'Libs')):
+                d, real = real_pkgconfig_file(t, which)
+                if d is None:
+                    out.append((t, None, None))
+                    continue
+                m = rpc.flags(t, d, name)
+                out.append((t + which, m, real))
+        return out
+    with ThreadPoolExecutor(workers) as ex:
+        for res in ex.map(one, names):
+            for t, m, real in res:
+                if m is None:
+                    declined += 1
+                elif isinstance(real, str) and real.rstrip(' ') == m.rstrip(' '):
+                    agree += 1
+                else:
+                    bad.append((t, m, real))
+    return agree, declined, bad
+
+
 def check_rpc(values, workers=16):
     from .models import rpc
     agree = declined = 0
